@@ -168,6 +168,8 @@ def eval_value(e: ast.AST, env: Dict[str, Any]) -> Any:
             raise CannotEvaluate('comparison')
     if isinstance(e, ast.Subscript):
         v = eval_value(e.value, env)
+        if isinstance(v, dict) and not isinstance(e.slice, ast.Slice):
+            return v[eval_value(e.slice, env)]      # KeyError propagates like any conversion error
         if not isinstance(v, (bytes, str, tuple, list)):
             raise CannotEvaluate('subscript of %s' % type(v).__name__)
         if isinstance(e.slice, ast.Slice):
